@@ -3,6 +3,7 @@ package parse
 import (
 	"sync"
 	"sync/atomic"
+	"time"
 
 	"github.com/robfig/soy/errortypes"
 )
@@ -299,4 +300,72 @@ func H_wgSelftest(n int) {
 		verifAssert(ok, "selftest: atomic.Value lost its value")
 	}
 	verifAssert(verifLiveGoroutines() == 0, "selftest: worker still alive")
+}
+
+// repeating units that keep lexer and parser in one state for long (pre + unit*k + post is a file)
+var linearUnits = []struct{ pre, unit, post string }{
+	{vT, "text and more text ", "\n{/template}\n"},
+	{vT, "{$x}", "\n{/template}\n"},
+	{vT, "a // comment\n", "{/template}\n"},
+	{vT, "/* c */ ", "\n{/template}\n"},
+	{vT, "{if $x}a{elseif $y}b{else}c{/if}", "\n{/template}\n"},
+	{vT, "{msg desc=\"d\"}a <b>c</b> d{/msg}", "\n{/template}\n"},
+	{vT + "{msg desc=\"d\"}", "<a ", "{/msg}\n{/template}\n"}, // many unclosed tag openings in one message
+	{vT + "{msg desc=\"d\"}", "x < y ", "{/msg}\n{/template}\n"},
+	{vT + "{msg desc=\"d\"}", "<b>x</b>", "{/msg}\n{/template}\n"},
+	{vT + "{$x + ", "1 + ", "1}\n{/template}\n"},
+	{vT + "{[", "1, ", "1]}\n{/template}\n"},
+	{vT + "{'", "ab\\n", "'}\n{/template}\n"},
+	{vT + "{literal}", "{x} ", "{/literal}\n{/template}\n"},
+	{vT + "{call .t}", "{param a: 1 /}", "{/call}\n{/template}\n"},
+	{vT + "{switch $x}", "{case 1}a", "{/switch}\n{/template}\n"},
+	{vT + "{$x", "|id", "}\n{/template}\n"},
+	{vT + "{$x", ".a", "}\n{/template}\n"},
+	{"{namespace a}\n", "/** @param x */\n{template .t}\n{$x}\n{/template}\n", ""},
+	{"{namespace a}\n/**\n", " * @param x the x\n", " */\n{template .t}\nx\n{/template}\n"},
+	{vT, "{{", ""},
+	{vT, "<<<<", "\n{/template}\n"},
+	{vT + "{css ", "a", "}\n{/template}\n"},
+}
+
+// H_linear (C05, time proportional to the input): the number of interpreter steps (library calls
+// are charged their argument length) of parsing pre + unit*2k + post is at most about twice that
+// of pre + unit*k + post, for k = 400 (natively: wall-clock time for k = 3000).
+func H_linear(u int) {
+	c := linearUnits[u]
+	run := func(k int) int {
+		in := c.pre
+		for i := 0; i < k; i++ {
+			in += c.unit
+		}
+		in += c.post
+		before := verifSteps()
+		SoyFile("x.soy", in)
+		return verifSteps() - before
+	}
+	const msg = "C05: parse time grows faster than the input (doubling the number of repeated units more than doubles the work)"
+	if verifSymbolic() {
+		s1, s2 := run(400), run(800)
+		verifAssert(s2 <= 2*s1+s1/3+3000, msg)
+		return
+	}
+	// native confirmation: wall-clock time of 3000 vs 6000 units (best of three)
+	timed := func(k int) time.Duration {
+		in := c.pre
+		for i := 0; i < k; i++ {
+			in += c.unit
+		}
+		in += c.post
+		best := time.Duration(1 << 62)
+		for r := 0; r < 3; r++ {
+			t0 := time.Now()
+			SoyFile("x.soy", in)
+			if d := time.Since(t0); d < best {
+				best = d
+			}
+		}
+		return best
+	}
+	t1, t2 := timed(3000), timed(6000)
+	verifAssert(t2 <= 3*t1+20*time.Millisecond, msg)
 }
